@@ -1,4 +1,12 @@
-"""C05 – lifecycle property, see vf/life.py (engine + oracle_c05)."""
+"""C05 – connection state only moves forward; closed is final; one connect per object.
+
+Layer S.  Generator: lifecycle schedules (vf.life): a connect (one call or the two
+phases separately) plus injected user calls / device chunks / faults at virtual
+times or loop-iteration positions, incl. the hello answer carrying trailing frames
+in the same chunk.  Oracle: monitor over every write to connection_state /
+is_connected (harness subclass), per-turn consistency, the state at a normal phase
+return, and a re-use probe of every used connection object.
+"""
 from __future__ import annotations
 
 from vf import life
@@ -6,9 +14,25 @@ from vf.props._lifeprop import run_with
 
 ID = "C05"
 LEVEL = "exploration"
-RULE = "placeholder"
-ASSUMPTIONS = []
-BUDGET = {"quick": {"examples": 800, "shards": 4}, "thorough": {"examples": 20000, "shards": 16}}
+RULE = (
+    "case = one APIClient connect on the simulated device (plaintext|noise, login on/off, one call|two phases, device "
+    "answering|silent, hello answer with 0-2 trailing frames and optional cuts) + 0-4 injected events {disconnect(), "
+    "force disconnect, cancel, EOF, reset, write failure (raising|fatal), silence, device chunk of 1-3 frames incl. "
+    "DisconnectRequest/garbage/undecodable payload/bad MAC} each at a virtual time on a 1/256 s grid (biased to the "
+    "connect/hello instants and the 5/10/30/60 s timeouts) or at the start/end of loop iteration k. Enumerated: every "
+    "cause at every loop iteration (both positions) of 14 golden scenarios, and every closing trailer x cut of the "
+    "hello answer. Oracle: rank(state) never decreases, nothing follows CLOSED, is_connected == (state is CONNECTED) at "
+    "every write and every loop turn, a phase that returns normally is in its target state, a used connection object "
+    "refuses both phases with RuntimeError and opens no socket. non-trivial = a CLOSED write precedes the end of the "
+    "connecting task (a close took effect while connecting)."
+)
+ASSUMPTIONS = [
+    "selector-transport callback protocol as modelled by vf/simnet.py (connection_made, reader start, waiter: one call_soon each)",
+    "schedules at the granularity of asyncio callbacks on one thread; virtual clock",
+]
+EXHAUSTIVE_NOTE = "single-cause injection at every loop iteration (start and end position) of the golden scenarios; hello-trailer x cut table"
+BUDGET = {"quick": {"examples": 600, "shards": 4}, "thorough": {"examples": 25000, "shards": 16}}
+FLOORS = {"close_before_main_end": 0.2, "close_same_turn_as_phase_completion": 0.04, "iteration_injection": 0.3}
 
 
 def run_case(case):
@@ -19,3 +43,10 @@ def run_case(case):
 
 def strategy(tier):
     return life.case_strategy(tier)
+
+
+def enumerated(tier):
+    scs = life.golden_scenarios()
+    connect_only = [s for s in scs if s["flow"] == "connect" or s.get("split")]
+    yield from life.single_fault_sweep(connect_only if tier == "quick" else scs)
+    yield from life.hello_trailer_sweep()
